@@ -222,6 +222,12 @@ func (c *Cluster) Stop(i int) {
 	c.Log.Add(Event{Kind: "stopped", Server: i, Call: -1})
 }
 
+// Cut breaks the established connections to server i; the server keeps running and listening.
+func (c *Cluster) Cut(i int) {
+	n := c.Fab.Cut(Addr(i))
+	c.Log.Add(Event{Kind: "cut", Server: i, Call: -1, N: n})
+}
+
 var lateSeq int32
 
 // RegisterLate registers one more (never called) handler on the running server i, in a
